@@ -62,9 +62,8 @@ ACL_BLOCKS = [
 ACL_B2 = "b *\n    e\n"
 
 # (mask over ACL_BLOCKS, cd_a, cd_b, second generator present)
-ACLS_Q = [(0b0111, 0, 0, 0), (0b0011, 1, 0, 1), (0b0110, 0, 1, 0), (0b1111, 0, 0, 1), (0b0101, 1, 0, 0), (0b0010, 0, 0, 1),
-          (0b1010, 0, 1, 1), (0b0100, 0, 0, 0)]
-ACLS_T = ACLS_Q + [(0b0001, 0, 0, 0), (0b1000, 0, 0, 0), (0b0111, 1, 1, 1), (0b1011, 0, 0, 0), (0b0000, 0, 0, 1), (0b1110, 1, 1, 0),
+ACLS_Q = [(0b0111, 0, 0, 0), (0b0011, 1, 0, 1), (0b0110, 0, 1, 0), (0b1111, 0, 0, 1), (0b0101, 1, 0, 0), (0b1010, 0, 1, 1)]
+ACLS_T = ACLS_Q + [(0b0010, 0, 0, 1), (0b0100, 0, 0, 0), (0b0001, 0, 0, 0), (0b1000, 0, 0, 0), (0b0111, 1, 1, 1), (0b1011, 0, 0, 0), (0b0000, 0, 0, 1), (0b1110, 1, 1, 0),
                    (0b1111, 1, 1, 1), (0b0011, 0, 0, 0)]
 ACLS = ACLS_Q if rt.TIER == "quick" else ACLS_T
 # special ACL texts: (1) a rule that merely STARTS with "interface" (built-in cant_delete default), (2) a row matched by two
